@@ -139,7 +139,7 @@ def run_property(prop, tier='quick', repo='/repo', quiet=False, write_evidence=T
     seed = int(os.environ.get('VERIF_SEED', '0') or 0)
     mod = load_rules(prop)
     if profiles is None:
-        profiles = ['dev'] if tier == 'quick' else ['dev', 'nodebug']
+        profiles = ['dev', 'nodebug']   # release-only code (cfg(not(debug_assertions))) is part of the tree: both tiers read both builds
     all_records = []
     infos = []
     th = None
